@@ -216,6 +216,24 @@ CHECKS = {
              "executor; F3c repaired (1eb7c38); known findings F3a, F3b, F3d reported per cell class as KNOWN-FINDING",
         technique="TLA+ spec + TLC enumeration of all cells and paths + execution of every schedule on the real arbitrator + TLC trace validation",
         design_ref="DESIGN.md 4.8, 5/C12, 10.4"),
+    "C13": dict(
+        category="model_checking",
+        text="spec/Arbitrator models the arbitrator log (state, resolutions, commit set, contracts bucket with per-resolver stage "
+             "and a persisted 'resolved' flag separate from presence), the durable effects outside it (channel closed in DB, "
+             "broadcast mark, nursery, final outcomes, fully resolved), the attendant's step queue, resolvers as small "
+             "programs, chain events, Crash (from the very first step) and Restart (as ChainArbitrator.Start does); TLC "
+             "checks ResolvedOnlyWhenEmpty, MarkedOnlyWhenResolved, UpstreamConsistent, NoLoss and - through deadlock "
+             "checking - that the only states to stay in for ever are the scenario's reference outcome, for up to 8 crashes. "
+             "On the code: for 8 close scenarios a crash-free reference run, then a crash after every durable write "
+             "(variant A) / at the attempt of the next write (variant B), crash point 0, double crashes, plans from TLC "
+             "behaviours and seeded random plans on the real ChannelArbitrator + real boltArbitratorLog behind the crashing "
+             "kvdb wrapper; after every write the raw contracts bucket, state, resolutions and commit set are read back and "
+             "validated by TLC together with the terminal verdict of each run.",
+        note="one channel, at most one resolver per kind, legacy (non-anchor) second-level paths; quiescence timing-based; "
+             "F8, F19 (FCC), F20 (FRACE) repaired; known findings F9 (dust fail-back before the durable close decision) "
+             "and H3 (re-inserted resolvers overwrite checkpointed ones) reported as KNOWN-FINDING; thorough adds a -race run",
+        technique="TLA+ spec + TLC model checking with crash/restart + crash enumeration after every durable write on the real arbitrator + TLC trace validation",
+        design_ref="DESIGN.md 4.9, 5/C13, 10.6c"),
     "C14": dict(
         category="model_checking",
         text="spec/TxNotifier models the chain (blocks over conflicting txs/spenders), reorg depth below the safety limit, the "
